@@ -4,6 +4,7 @@ from ..rules import cache, dar
 
 def check(ctx, rep):
     cache.exc_1(ctx, rep)
+    cache.exc_2(ctx, rep)
     roles = cache.Roles(ctx)
     cache.cache_4(ctx, rep, roles)
     # an unbound local in a handler or clean-up path raises UnboundLocalError, which no OSError handler absorbs
